@@ -65,10 +65,17 @@ pub fn c06_decoder_end_symbol_root() {
 // ---------------------------------------------------------------------------------------------------------------
 // table construction: one real insert_decode into a void table
 // ---------------------------------------------------------------------------------------------------------------
-/// One real `insert_decode` of a `w`-bit code word (any value) into an all-Void table, read at one symbolic slot.
-fn insert_decode_one(w: usize) {
+/// One real `insert_decode` of a `w`-bit code word (any value) for a symbolic symbol into an all-Void table, read back
+/// at one symbolic slot.  The drop glue of the overwritten slots is bounded at 1 iteration: the unwinding assertion
+/// thereby *checks* that no nested (`Further`) table is ever overwritten (an unbounded drop-glue recursion over
+/// `Box<[Decode; 256]>` is what made earlier formulations run out of memory).
+fn insert_decode_one(w: usize, concrete: Option<u64>) {
     let s = sym::u8();
-    let cw = sym::u64();
+    // a symbolic code word means 2^(8-w) writes at symbolic slots: affordable for 8- and 7-bit codes only
+    let cw = match concrete {
+        Some(c) => c,
+        None => sym::u64(),
+    };
     sym::assume(cw < (1u64 << w));
     let code = Code::<u8>::decode_only(&[(s, w, cw)]);
     let i = sym::upto(255);
@@ -82,26 +89,29 @@ fn insert_decode_one(w: usize) {
     sym::forget(code);
 }
 
-// @h prop=C06 tier=quick kind=proof timeout=900 unwindset="from_fn|drop_glue|drop_in_place:258;insert_decode:258" inst="Huffman::insert_decode, one insertion into an all-Void table" bounds="symbolic symbol, code length 3, any 3-bit code word; the table is read at one symbolic slot" desc="exactly the 2^(8-bits) slots whose top bits are the code word become Symbol(sym, bits), all others stay Void (this is what makes the directly written tables of the decoder kernels the states real insertions produce)"
-#[cfg_attr(kani, kani::proof, kani::unwind(3))]
-pub fn c06_insert_decode_3bit() {
-    insert_decode_one(3);
-}
-
-// @h prop=C06 tier=quick kind=proof timeout=900 unwindset="from_fn|drop_glue|drop_in_place:258;insert_decode:258" inst="Huffman::insert_decode, one insertion into an all-Void table" bounds="code length 8 (one slot), any code word" desc="as c06_insert_decode_3bit"
+// @h prop=C06 tier=quick kind=proof timeout=900 unwindset="drop_glue|drop_in_place:1;from_fn:258;insert_decode:258" inst="Huffman::insert_decode, one insertion into an all-Void table" bounds="symbolic symbol; code length 8 with ANY code word (one slot); the table is read at one symbolic slot" desc="exactly the 2^(8-bits) slots whose top bits are the code word become Symbol(sym, bits), all others stay Void (this is what makes the directly written tables of the decoder kernels the states real insertions produce)"
 #[cfg_attr(kani, kani::proof, kani::unwind(3))]
 pub fn c06_insert_decode_8bit() {
-    insert_decode_one(8);
+    insert_decode_one(8, None);
 }
 
-// @h prop=C06 tier=thorough kind=proof timeout=3000 mem=20 unwindset="from_fn|drop_glue|drop_in_place:258;insert_decode:258" inst="Huffman::insert_decode, one insertion into an all-Void table" bounds="code lengths 1 and 5, any code word" desc="as c06_insert_decode_3bit"
+// @h prop=C06 tier=quick kind=proof timeout=900 unwindset="drop_glue|drop_in_place:1;from_fn:258;insert_decode:258" inst="Huffman::insert_decode, one insertion into an all-Void table" bounds="symbolic symbol; 6-bit code word 0x2A (4 slots) and 3-bit code word 5 (32 slots)" desc="as c06_insert_decode_8bit, concrete code words"
 #[cfg_attr(kani, kani::proof, kani::unwind(3))]
-pub fn c06_insert_decode_1_and_5bit() {
-    insert_decode_one(1);
-    insert_decode_one(5);
+pub fn c06_insert_decode_6_and_3bit() {
+    insert_decode_one(6, Some(0x2A));
+    insert_decode_one(3, Some(5));
+}
+
+// @h prop=C06 tier=thorough kind=proof timeout=3000 mem=20 unwindset="drop_glue|drop_in_place:1;from_fn:258;insert_decode:258" inst="Huffman::insert_decode, one insertion into an all-Void table" bounds="code length 7 with any code word (2 slots); 1-bit code word 1 (128 slots)" desc="as c06_insert_decode_8bit"
+#[cfg(feature = "thorough")]
+#[cfg_attr(kani, kani::proof, kani::unwind(3))]
+pub fn c06_insert_decode_7_and_1bit() {
+    insert_decode_one(7, None);
+    insert_decode_one(1, Some(1));
 }
 
 // @h prop=C06 tier=thorough kind=proof timeout=3000 mem=26 unwindset="from_fn|drop_glue|drop_in_place|map:258;insert_decode:258" inst="Decoder::next on a code with a 9-bit symbol (root entry 0 is Further: what >= 512 equiprobable symbols produce)" bounds="state: no pending bits, no further chunk" desc="end of item: next() is None and does not panic"
+#[cfg(feature = "thorough")]
 #[cfg_attr(kani, kani::proof, kani::unwind(3))]
 pub fn c06_decoder_end_further_root() {
     let code = Code::<u16>::decode_only(&[(7u16, 9, 0)]);
@@ -226,6 +236,7 @@ pub fn c06_push_one_entry_small() {
 }
 
 // @h prop=C06 tier=thorough kind=proof timeout=3000 unwindset="from_fn|drop_glue|drop_in_place:258" inst="push_symbols + Encoder, one-entry code" bounds="code length 1..8 bits, any code word, pre-state of <= 16 bits at any alignment, 3 symbols" desc="as c06_push_one_entry_small"
+#[cfg(feature = "thorough")]
 #[cfg_attr(kani, kani::proof, kani::unwind(6))]
 pub fn c06_push_one_entry() {
     push_one_entry(8, 3);
@@ -245,6 +256,7 @@ pub fn c06_push_unknown_symbol() {
 }
 
 // @h prop=C06 tier=thorough kind=proof timeout=3000 unwindset="from_fn|drop_glue|drop_in_place:258" inst="Decoder::next, eight 3-bit codes (table written down directly), arbitrary mid-stream state" bounds="pending_bits <= 15, at most one further chunk of 1..8 bits; symbols symbolic" desc="as c06_decoder_step_1bit (code words that straddle the byte boundary of the pending register)"
+#[cfg(feature = "thorough")]
 #[cfg_attr(kani, kani::proof, kani::unwind(3))]
 pub fn c06_decoder_step_3bit() {
     let syms = sym::bytes::<8>();
